@@ -9,6 +9,8 @@ type VerifOpSnapshot struct {
 	Unqueried   int
 	Queried     []string
 	ClosestLen  int
+	// Unqueried candidates in the order the operation would pick them.
+	UnqueriedList []string
 }
 
 // Unlocked read of the operation's bookkeeping. Call only while every goroutine touching the
@@ -20,5 +22,11 @@ func (op *Operation) VerifSnapshot() (ret VerifOpSnapshot) {
 		ret.Queried = append(ret.Queried, string(a))
 	}
 	ret.ClosestLen = op.closest.Len()
+	// The container is persistent, so draining a copy leaves the operation's own value untouched.
+	for u := op.unqueried; u.Len() > 0; {
+		n := u.Next()
+		ret.UnqueriedList = append(ret.UnqueriedList, n.String())
+		u = u.Delete(n)
+	}
 	return
 }
